@@ -125,7 +125,7 @@ def run(tier, cmd):
                 cmd, trusted_base=TRUSTED + ['Duration::default() is the zero duration'],
                 assumptions=['feed/poll/reset are deterministic functions of *self and their arguments (no statics or interior mutability: C15 audit; clock excepted, C13)'],
                 explanation='')
-    Fs = load_configs(chk, ['K1'] + (['K2'] if tier == 'thorough' else []), required=('K1',))
+    Fs = load_configs(chk, ['K1', 'K2'], required=('K1',))
     for cfg, F in sorted(Fs.items()):
         st = [s for s in F.statics]
         chk.ob('%s/no-statics/%s' % (PID, cfg), 'plain data', 'proved' if not st else 'refuted', expected='no static item', found=[s['path'] for s in st], nontrivial=False)
